@@ -228,6 +228,21 @@ def pearson(a, b):
     return cov / math.sqrt(va * vb), Fraction(cov * cov, va * vb), (cov > 0) - (cov < 0)
 
 
+def _keep(case):
+    """the samples the run is restricted to, as the case fixes them (the same draw as in impl)"""
+    import random
+
+    ns = len(case["data"])
+    if not case["samples"]:
+        return list(range(ns))
+    rnd = random.Random(case["seed"])
+    want = set(rnd.sample([f"s{i}" for i in range(ns)], rnd.randint(2, ns)))
+    return [i for i in range(ns) if f"s{i}" in want]
+
+
+TOL, TOL_K = 2, 1000000  # slack of the three-decimal window in the model: 2/(2000*10^6) = 1e-9, as in the oracle
+
+
 def model_req(case):
     tgt_hap = any(h["id"] == case["target"] for h in case["haps"])
     nv = len(case["data"][0])
@@ -235,17 +250,42 @@ def model_req(case):
     ids = case["ids"]
     if mode == "hap" and ids is not None:
         ids = ids + [case["target"]] if tgt_hap else ids
-    return {"op": "ldPlan", "mode": mode, "haps": [h["id"] for h in case["haps"]], "fileVars": [f"v{j}" for j in range(nv)], "target": case["target"], "ids": ids}
+    return {"op": "calcLd", "mode": mode, "haps": [{"id": h["id"], "vars": h["vars"]} for h in case["haps"]], "variants": [{"id": f"v{j}", "alleles": ["A", "C"]} for j in range(nv)], "data": case["data"], "keep": _keep(case), "target": case["target"], "tgtHap": tgt_hap, "ids": ids, "tol": TOL, "K": TOL_K}
 
 
 def model_obs(case, resp):
-    return {"listed": resp["listed"]}
+    return {"listed": resp["listed"], "rows": resp["rows"]}
+
+
+def _thousandths(r):
+    """the printed value as an integer number of thousandths (exact: the text has three decimals), or None"""
+    from decimal import Decimal, InvalidOperation
+
+    try:
+        d = Decimal(r) * 1000
+    except InvalidOperation:
+        return None
+    return int(d) if d == d.to_integral_value() else None
 
 
 def equal(a, b):
     if "error" in a:
         return False
-    return sorted(r[0] for r in a["rows"]) == sorted(b["listed"]) and (len(a["rows"]) == len(b["listed"]))
+    if sorted(r[0] for r in a["rows"]) != sorted(b["listed"]) or len(a["rows"]) != len(b["listed"]):
+        return False
+    # every printed value is one the model accepts for that row (LdStat.printsAs, C16R.printed_value_is_R_to_three_decimals);
+    # nan exactly where the model's statistic is undefined
+    want = {}
+    for name, st in b["rows"]:
+        want.setdefault(name, []).append(st)
+    for name, r in a["rows"]:
+        st = want[name].pop(0)
+        if st is None:
+            if r != "nan":
+                return False
+        elif r == "nan" or _thousandths(r) not in st["accepted"]:
+            return False
+    return True
 
 
 def oracle(case, obs):
@@ -329,6 +369,36 @@ def impl_kernel(case):
     return {"r": float(pearson_corr_ld(a, b)), "r_self": float(pearson_corr_ld(a, a)), "r_rev": float(pearson_corr_ld(b, a))}
 
 
+def model_req_kernel(case):
+    if case["n"] > 1000:
+        return {"op": "ldStat", "a": [], "b": [], "tol": TOL, "K": TOL_K}  # the biobank sizes are judged by the oracle alone
+    a, b = _arrays(case)
+    return {"op": "ldStat", "a": [int(x) for x in a], "b": [int(x) for x in b], "tol": TOL, "K": TOL_K}
+
+
+def model_obs_kernel(case, resp):
+    return {"skipped": True} if case["n"] > 1000 else resp
+
+
+def _r_of(st):
+    return None if st is None else st["num"] / math.sqrt(st["da"] * st["db"])
+
+
+def equal_kernel(a, b):
+    if b.get("skipped"):
+        return True
+    if "error" in a:
+        return False
+    for k, mk in (("r", "stat"), ("r_rev", "rev"), ("r_self", "self")):
+        want = _r_of(b[mk])
+        if want is None:
+            if not math.isnan(a[k]):
+                return False
+        elif not abs(a[k] - want) <= 1e-9:
+            return False
+    return True
+
+
 def oracle_kernel(case, obs):
     if "error" in obs:
         return f"pearson_corr_ld raised {obs}"
@@ -345,13 +415,13 @@ def oracle_kernel(case, obs):
 CHECK = Check(
     id="C16",
     title="haptools ld reports the Pearson correlation of dosages",
-    theorems=["C16.listing_hap_mode", "C16.listing_from_gts_hap_target", "C16.listing_from_gts_var_target", "C16.hap_dosage_counts_strands", "C16R.pearson_symm", "C16R.pearson_sq_le_one", "C16R.undefined_iff_constant"],
+    theorems=["C16.listing_hap_mode", "C16.listing_from_gts_hap_target", "C16.listing_from_gts_var_target", "C16.hap_dosage_counts_strands", "C16.one_row_per_listed_name", "C16.rows_use_strand_dosage", "C16.ld_symmetric", "C16.ld_symmetric_as_printed", "C16R.nan_iff_a_dosage_is_constant", "C16R.printed_value_is_R_to_three_decimals", "C16R.R_abs_le_one", "C16R.R_is_pearson", "C16R.pearson_symm", "C16R.pearson_sq_le_one", "C16R.undefined_iff_constant"],
     imports=("HapModel", "HapReal"),
     build_targets=("HapModel", "HapReal"),
     sections=[
         Section(
             name="calc_ld",
-            theorems=["C16.listing_hap_mode", "C16.listing_from_gts_hap_target", "C16.listing_from_gts_var_target", "C16.hap_dosage_counts_strands"],
+            theorems=["C16.listing_hap_mode", "C16.listing_from_gts_hap_target", "C16.listing_from_gts_var_target", "C16.hap_dosage_counts_strands", "C16.one_row_per_listed_name", "C16.rows_use_strand_dosage", "C16.ld_symmetric", "C16.ld_symmetric_as_printed", "C16R.nan_iff_a_dosage_is_constant", "C16R.printed_value_is_R_to_three_decimals", "C16R.R_abs_le_one", "C16R.R_is_pearson"],
             gen=gen,
             impl=impl,
             model_req=model_req,
@@ -366,9 +436,12 @@ CHECK = Check(
         ),
         Section(
             name="pearson_kernel",
-            theorems=["C16R.pearson_symm", "C16R.pearson_sq_le_one", "C16R.undefined_iff_constant"],
+            theorems=["C16R.pearson_symm", "C16R.pearson_sq_le_one", "C16R.undefined_iff_constant", "C16.ld_symmetric", "C16R.R_is_pearson"],
             gen=gen_kernel,
             impl=impl_kernel,
+            model_req=model_req_kernel,
+            model_obs=model_obs_kernel,
+            equal=equal_kernel,
             oracle=oracle_kernel,
             nontrivial=lambda c, o: C.jdump(c),
             describe=lambda c, o: f"n={c['n']}",
